@@ -860,8 +860,8 @@ Qed.
 Lemma supplied_env_snoc fs i body env :
   let S := supplied_of fs i (body ++ [LoadShellEnv env]) in
   let Sb := supplied_of fs i body in
-  levels8 S = levels8 Sb /\ s_unreadable S = s_unreadable Sb /\ s_sfx S = s_sfx Sb /\
-  s_env S = Some env.
+  below_env S = below_env Sb /\ above_env S = above_env Sb /\
+  s_unreadable S = s_unreadable Sb /\ s_sfx S = s_sfx Sb /\ s_env S = Some env.
 Proof.
   cbv zeta. unfold supplied_of, has_op. rewrite map_app. cbn [map undefer].
   rewrite !last_of_snoc, !after_last_snoc. cbv beta iota. rewrite !existsb_app.
@@ -953,4 +953,82 @@ Proof.
     unfold remerge in Hstep. rewrite Em1 in Hstep. inversion Hstep; subst c' out. clear Hstep.
     cbn [c_env c_cache set_cache set_env]. split; [exact Hclause|]. split; [exact V1 | reflexivity].
   - inversion Hstep; subst c' out. exact Hclause.
+Qed.
+
+(** * Shapes of well-formed scripts *)
+Lemma wf_order_shape : forall ops, wf_order ops = true ->
+  forallb script_op ops = true \/
+  exists body env, ops = body ++ [LoadShellEnv env] /\ forallb script_op body = true.
+Proof.
+  induction ops as [|o r IH]; intros H; [left; reflexivity|].
+  destruct r as [|o2 r'].
+  - cbn [wf_order] in H. destruct (script_op o) eqn:Es.
+    + left. simpl. rewrite Es. reflexivity.
+    + unfold script_op in Es. rewrite Es in H. cbn [orb] in H.
+      destruct o; try discriminate.
+      match goal with |- context [LoadShellEnv ?e] => right; exists [], e; split; reflexivity end.
+  - change (wf_order (o :: o2 :: r')) with ((is_load_op o || is_set_op o) && wf_order (o2 :: r')) in H.
+    apply andb_true_iff in H as [Ho Hr]. destruct (IH Hr) as [HF | [body [env [E HF]]]].
+    + left. cbn [forallb]. unfold script_op at 1. rewrite Ho. exact HF.
+    + right. exists (o :: body), env. rewrite E. split; [reflexivity|].
+      cbn [forallb]. unfold script_op at 1. rewrite Ho. exact HF.
+Qed.
+
+Lemma wf_order_snoc done o : wf_order (done ++ [o]) = true ->
+  forallb script_op done = true /\ (script_op o = true \/ exists env, o = LoadShellEnv env).
+Proof.
+  intros H. destruct (wf_order_shape _ H) as [HF | [body [env [E HF]]]].
+  - rewrite forallb_snoc in HF. apply andb_true_iff in HF as [H1 H2]. auto.
+  - apply app_inj_tail in E as [-> ->]. split; [exact HF|]. right. exists env. reflexivity.
+Qed.
+
+Lemma spec_ok_unfold fs i ops pfx obs :
+  spec_ok fs i ops pfx obs =
+  if negb (wf_script ops) then true else
+  let s := supplied_of fs i ops in
+  if negb (tc_ok s) then true else
+  if s_unreadable s then match obs with Err EOther => true | _ => false end
+  else
+    match obs with
+    | Err e => match s_env s with
+               | Some env => env_outcome_ok pfx env (levels8 s) (Err e)
+               | None => false
+               end
+    | Ok (view, envl, sfxs) =>
+        match s_env s with
+        | Some env => env_outcome_ok pfx env (levels8 s) (Ok envl)
+        | None => tree_eqb envl (Node [])
+        end && sfx_ok (s_sfx s) sfxs && view_ok (levels9 s envl) view
+    end.
+Proof. reflexivity. Qed.
+
+(** * Every clean prefix of a run is accepted *)
+Lemma prefix_ok fs i c0 done c :
+  start fs i = Ok c0 -> exec fs c0 done = Ok c ->
+  spec_ok fs i done "INVOKE_" (Ok (snap_of c)) = true.
+Proof.
+  intros Hs H. rewrite spec_ok_unfold. destruct (wf_script done) eqn:Hw; [|reflexivity]. cbn [negb].
+  unfold wf_script in Hw. apply andb_true_iff in Hw as [Hwo Hset]. cbv zeta.
+  destruct (wf_order_shape done Hwo) as [HF | [body [env [E HF]]]].
+  - destruct (tc_ok (supplied_of fs i done)) eqn:Htc; [|reflexivity]. cbn [negb].
+    pose proof (reach_state fs i c0 done c Hs HF H) as Hat.
+    destruct (at_state_levels fs i done c Hat) as [_ [Hun [Hsfx [Hen [He _]]]]]. cbv zeta in *.
+    destruct (at_state_merge fs i done c Hat Htc) as [d0 [Em [_ [_ [_ V0]]]]].
+    destruct (start_ok_facts fs i c0 Hs) as [_ [_ [Hc0 [Hp0 Hr0]]]].
+    pose proof (settled_cache fs c0 done c Hc0 Hp0 Hr0 HF Hset H) as Hck. unfold cache_ok in Hck.
+    rewrite Em in Hck. inversion Hck; subst d0.
+    rewrite Hun. unfold snap_of. rewrite Hen, He, Hsfx, V0. reflexivity.
+  - subst done. rewrite exec_app in H. destruct (exec fs c0 body) as [cb|] eqn:Eb; [|discriminate].
+    pose proof (reach_state fs i c0 body cb Hs HF Eb) as Hat.
+    destruct (supplied_env_snoc fs i body env) as [Q1 [Q2 [Q3 [Q4 Q5]]]]. cbv zeta in *.
+    assert (Qtc : tc_ok (supplied_of fs i (body ++ [LoadShellEnv env])) = tc_ok (supplied_of fs i body))
+      by (unfold tc_ok, levels8; rewrite Q1, Q2; reflexivity).
+    rewrite Qtc. destruct (tc_ok (supplied_of fs i body)) eqn:Htc; [|reflexivity]. cbn [negb].
+    destruct (at_state_levels fs i body cb Hat) as [_ [Hun [Hsfx _]]]. cbv zeta in *.
+    rewrite Q3, Hun, Q5, Q4. unfold levels9, levels8. rewrite Q1, Q2.
+    cbn [exec] in H. destruct (step fs cb (LoadShellEnv env)) as [c' out] eqn:Es.
+    pose proof (env_step fs i body cb env c' out Hat Htc Es) as Hstep.
+    destruct out; try discriminate; inversion H; subst c'; destruct Hstep as [K1 [K2 K3]];
+      unfold snap_of; rewrite K3, Hsfx; unfold levels8 in K1; rewrite K1; unfold levels9 in K2;
+      rewrite K2; reflexivity.
 Qed.
